@@ -1008,6 +1008,8 @@ func ruleMultiGlobUnbounded(c *Ctx) {
 		return
 	}
 	isGLimit := func(e ast.Expr, idx string) bool {
+		// lo, hi := g.Limits[0], g.Limits[1]
+		e = resolveLocal(info, fn.Decl.Body, e)
 		ix, ok := ast.Unparen(e).(*ast.IndexExpr)
 		if !ok {
 			return false
@@ -1101,6 +1103,20 @@ func ruleMultiGlobUnbounded(c *Ctx) {
 				}
 			case *ast.ReturnStmt:
 				leaves = true
+				// return [2]string{} / [2]string{"", ""}: both limits empty
+				if len(x.Results) == 1 {
+					if cl, ok := ast.Unparen(x.Results[0]).(*ast.CompositeLit); ok {
+						allEmpty := true
+						for _, el := range cl.Elts {
+							if !isEmptyStr(el) {
+								allEmpty = false
+							}
+						}
+						if allEmpty {
+							reset["0"], reset["1"] = true, true
+						}
+					}
+				}
 			}
 		}
 		if reset["0"] && reset["1"] && leaves {
